@@ -139,7 +139,13 @@ def epLine (s : St) (e : Nat) : String :=
   let E := s.eps e
   let x := if E.expiresAt ≤ 1 then toString E.expiresAt else toString (E.expiresAt / 1000000) ++ "ms"
   let tup := (E.tuples.toArray.qsort (· < ·)).toList
-  s!"{e}:f{boolStr E.failed}d{boolStr E.dead}c{E.connCloses}x{x}s{boolStr E.hasSent}r{boolStr E.hasReply}n{E.natTimeout / 1000000}t{joinNat tup}"
+  -- expiry, NAT timeout and the traffic flags matter only while somebody can still reach the endpoint
+  -- (it is in the table, or it is an open endpoint a holder may write to)
+  let visible := s.pool E.key == some e || (!E.failed && !E.closed)
+  if visible then
+    s!"{e}:f{boolStr E.failed}d{boolStr E.dead}c{E.connCloses}x{x}s{boolStr E.hasSent}r{boolStr E.hasReply}n{E.natTimeout / 1000000}t{joinNat tup}"
+  else
+    s!"{e}:f{boolStr E.failed}d{boolStr E.dead}c{E.connCloses}t{joinNat tup}"
 
 /-- digest without times (for replays that run on the real clock) -/
 def digestNoTime (s : St) : String :=
@@ -184,6 +190,12 @@ structure DrvSt where
   /-- split creation: the endpoint object dialled but not published yet -/
   epPending : Option EP.Ep := none
   epLastPub : Nat := 0
+  /-- tuning constants reported by the harness (`key consts`, `hp consts`) -/
+  sniffPorts : List (Nat × Nat) := Keys.sniffPortsDefault
+  directPorts : List (Nat × Nat) := Keys.directPortsDefault
+  hpMaxRetry : Nat := 2
+  /-- conn-state registration done by `handlePkt`: (endpoint, "src>dst") pairs held by open endpoints -/
+  hpTuples : List (Nat × String) := []
   /-- the creation in progress has registered its endpoint already (inside the table write's critical section) -/
   epRegDone : Bool := false
 
@@ -258,28 +270,54 @@ def hpDigest (s : Route.St) : String :=
   let es := if eps.isEmpty then "-" else " ".intercalate eps
   s!"dials={s.dials} eps={es} pool={p}"
 
+/-- `443,8443` / `53,3478,5004-5060` / `-` -/
+def rangesTok? (tok : String) : Option (List (Nat × Nat)) :=
+  if tok = "-" then some [] else
+  (tok.splitOn ",").mapM fun part =>
+    match part.splitOn "-" with
+    | [a] => a.toNat?.map fun a => (a, a)
+    | [a, b] => do let a ← a.toNat?; let b ← b.toNat?; pure (a, b)
+    | _ => none
+
 def handleHp (st : DrvSt) (toks : List String) : DrvSt × String :=
   let s := st.hp
+  -- the packet's (source, destination) pair is registered with the endpoint that carries it (both directions);
+  -- a closed endpoint has released what it held.  `trk=<tracked tuples>:<holdings>`
+  let live (s' : Route.St) (t : List (Nat × String)) := t.filter fun x => !(s'.eps x.1).closed
+  let trk (t : List (Nat × String)) :=
+    s!"trk={2 * (t.map (·.2)).eraseDups.length}:{2 * t.length}"
   match toks with
-  | ["reset"] => ({ st with hp := Route.init }, "ok")
+  | ["reset"] => ({ st with hp := { Route.init with maxRetry := st.hpMaxRetry }, hpTuples := [] }, "ok")
+  | ["consts", mr, sniff] =>
+    match mr.toNat?, rangesTok? sniff with
+    | some mr, some sn => ({ st with hpMaxRetry := mr, sniffPorts := sn, hp := { st.hp with maxRetry := mr } }, "ok")
+    | _, _ => (st, "bad-op")
   | ["classify", src, dst, payload] =>
     match apTok? src, apTok? dst with
     | some src, some dst =>
-      let al := Keys.flowAllowsSniffing src dst
+      let al := Keys.flowAllowsSniffingIn st.sniffPorts src dst
       (st, s!"al={boolStr al} qi={boolStr (al && payload == "quic")} hs=0 sameKey=1")
     | _, _ => (st, "bad-op")
-  | ["inval"] => (st, s!"removed=0 {hpDigest s}")   -- every endpoint of this stream has carried traffic: it survives
+  | ["inval"] => (st, s!"removed=0 {hpDigest s} {trk st.hpTuples}")   -- every endpoint of this stream has carried traffic: it survives
   | "pkt" :: src :: dst :: hs :: qi :: al :: sens :: ws :: rest =>
     match apTok? src, apTok? dst, boolTok? hs, boolTok? qi, boolTok? al, boolTok? sens, routingTok? rest with
     | some src, some dst, some hs, some qi, some al, some sens, some r =>
       let wl : List Bool := if ws = "-" then [] else ws.toList.map (· == '1')
       let res := Route.handle s ⟨⟨src, dst, hs, qi, al⟩, r, sens⟩ wl
       let c := match res.2 with | some e => s!"e{e}" | none => "none"
-      ({ st with hp := res.1 }, s!"carried={c} {hpDigest res.1}")
+      let pair := s!"{apStr src}>{apStr dst}"
+      let t1 := match res.2 with
+        | some e => if st.hpTuples.contains (e, pair) then st.hpTuples else st.hpTuples ++ [(e, pair)]
+        | none => st.hpTuples
+      let t2 := live res.1 t1
+      ({ st with hp := res.1, hpTuples := t2 }, s!"carried={c} {hpDigest res.1} {trk t2}")
     | _, _, _, _, _, _, _ => (st, "bad-op")
   | ["kill", e] =>
     match e.toNat? with
-    | some e => let s' := Route.readError s e; ({ st with hp := s' }, hpDigest s')
+    | some e =>
+      let s' := Route.readError s e
+      let t := live s' st.hpTuples
+      ({ st with hp := s', hpTuples := t }, s!"{hpDigest s'} {trk t}")
     | none => (st, "bad-op")
   | _ => (st, "bad-op")
 
@@ -302,7 +340,8 @@ def handleIb (st : DrvSt) (toks : List String) : DrvSt × String :=
         match Batch.take s i with
         | (s', some (_, data)) =>
           -- a buffer handed out is fresh: never aliased with one a task still holds; the held ones keep their bytes
-          ({ st with ib := s' }, s!"ok data={joinNat data} alias=0 held_ok=1")
+          -- (and it comes with the control message of the same datagram: the fake socket derives it from the payload)
+          ({ st with ib := s' }, s!"ok data={joinNat data} oob={data.headD 0},{data.length},77 alias=0 held_ok=1")
         | (_, none) => (st, "none")
       else (st, "none")
     | none => (st, "bad-op")
@@ -387,7 +426,7 @@ def handleDrn (st : DrvSt) (toks : List String) : DrvSt × String :=
     | none => (st, "bad-op")
   | _ => (st, "bad-op")
 
-def handleKey (toks : List String) : String :=
+def handleKey (st : DrvSt) (toks : List String) : String :=
   match toks with
   | "flow" :: src :: dst :: hs :: qi :: al :: dom :: rest =>
     match apTok? src, apTok? dst, boolTok? hs, boolTok? qi, boolTok? al, boolTok? dom, routingTok? rest with
@@ -403,7 +442,7 @@ def handleKey (toks : List String) : String :=
   | ["ports", sp, dp] =>
     match sp.toNat?, dp.toNat? with
     | some sp, some dp =>
-      s!"allows={boolStr (Keys.flowAllowsSniffing ⟨true, 0, sp⟩ ⟨true, 0, dp⟩)} direct={boolStr (Keys.goroutineDirectly sp dp)} ordered={boolStr (Keys.orderedIngress sp dp)}"
+      s!"allows={boolStr (Keys.flowAllowsSniffingIn st.sniffPorts ⟨true, 0, sp⟩ ⟨true, 0, dp⟩)} direct={boolStr (Keys.goroutineDirectlyIn st.directPorts sp dp)} ordered={boolStr (Keys.orderedIngressIn st.directPorts sp dp)}"
     | _, _ => "bad-op"
   | _ => "bad-op"
 
@@ -483,6 +522,18 @@ def handleEp (st : DrvSt) (toks : List String) : DrvSt × String :=
   | ["stx"] => (st, EpDrv.digestNoTime s)
   -- kernel conn-state entries of tuples no endpoint owns any more (after everything is closed): none
   | ["kleft"] => (st, "0")
+  | ["goc", k, sym, nat, owner, drain, d, "notpkt"] =>
+    -- the dial succeeds but the transport can not carry datagrams: it is closed again, no endpoint, no
+    -- negative-cache entry (the stale entry of the key, if any, has been dropped before the dial)
+    match k.toNat?, boolTok? sym, nat.toNat?, EpDrv.optTok? owner, EpDrv.optTok? drain, d.toNat? with
+    | some k, some sym, some nat, some owner, some drain, some d =>
+      let r := EP.getOrCreate s k sym (EpDrv.ms nat) owner drain d .failNoAlive
+      match r.2 with
+      | .errDial => upd (EP.countDial r.1) "err-dial"
+      | .hit e => upd r.1 s!"hit {e}"
+      | .created e => upd r.1 s!"new {e}"
+      | .errFailed => upd r.1 "err-failed"
+    | _, _, _, _, _, _ => (st, "bad-op")
   | ["goc", k, sym, nat, owner, drain, d, out] =>
     match k.toNat?, boolTok? sym, nat.toNat?, EpDrv.optTok? owner, EpDrv.optTok? drain, d.toNat?,
       (match out with | "ok" => some EP.DialOutcome.ok | "gen" => some .failGeneric | "noalive" => some .failNoAlive | _ => none) with
@@ -509,7 +560,7 @@ def handleEp (st : DrvSt) (toks : List String) : DrvSt × String :=
     | none => (st, "bad-op")
   | ["remove", k, e] =>
     match k.toNat?, e.toNat? with
-    | some k, some e => upd (EP.remove s k e) (if s.pool k = some e then "removed" else "not-in-pool")
+    | some k, some e => upd (EP.remove s k e) "ok"   -- (what `Remove` returns is not part of the property: callers ignore it)
     | _, _ => (st, "bad-op")
   | ["close", e] =>
     match e.toNat? with
@@ -644,7 +695,11 @@ def handle (st : DrvSt) (line : String) : DrvSt × String :=
   | "krn" :: rest => handleKrn st rest
   | "hp" :: rest => handleHp st rest
   | "ib" :: rest => handleIb st rest
-  | "key" :: rest => (st, handleKey rest)
+  | ["key", "consts", sniff, direct] =>
+    match rangesTok? sniff, rangesTok? direct with
+    | some sn, some di => ({ st with sniffPorts := sn, directPorts := di }, "ok")
+    | _, _ => (st, "bad-op")
+  | "key" :: rest => (st, handleKey st rest)
   | "tq" :: rest => handleTq st rest
   | "ep" :: rest => handleEp st rest
   | "epc" :: rest => handleEpc st rest
